@@ -251,13 +251,65 @@ Proof.
   apply andb_true_iff in H. destruct H as [Hx Hr]. rewrite (mention_eqb_eq _ _ Hx), (IH _ Hr). reflexivity.
 Qed.
 
+Lemma mention_of_none : forall d sp, mention_of root RNone d sp = [].
+Proof. intros [i|] sp; simpl; [destruct (is_signal root i); reflexivity | reflexivity]. Qed.
+
+(* a name that is written: only its index expressions and slice ranges are read *)
+Definition written_ok (e : expr) : Prop :=
+  fam_written root e = true -> moe (ev_written e) = occ_expr root RNone e.
+Lemma ev_written_occ : forall e, written_ok e.
+Proof.
+  induction e using expr_ind'; unfold written_ok in *; intros Hf; simpl in Hf.
+  - reflexivity.
+  - simpl. symmetry. apply mention_of_none.
+  - simpl. rewrite (IHe Hf), mention_of_none, app_nil_r. reflexivity.
+  - apply andb_true_iff in Hf. destruct Hf as [Hp Hb]. simpl.
+    rewrite moe_app, (IHe Hp). f_equal. apply args_ok; [|exact Hb].
+    apply Forall_forall. intros a _. apply ev_expr_occ.
+  - apply (ev_expr_occ (EAttr sp e k arg) Hf false).
+  - apply andb_true_iff in Hf. destruct Hf as [Hp Ha]. simpl.
+    rewrite moe_app, (IHe Hp). f_equal. apply args_ok; [|exact Ha].
+    apply Forall_forall. intros a _. apply ev_expr_occ.
+  - apply (ev_expr_occ (EUnary sp e) Hf false).
+  - apply (ev_expr_occ (EBinary sp e1 e2) Hf false).
+  - apply (ev_expr_occ (EAggregate sp es) Hf false).
+  - apply (ev_expr_occ (EQualified sp e) Hf false).
+  - apply (ev_expr_occ (EParen sp e) Hf false).
+Qed.
+
+(* what is not a name is analysed as an expression whatever the mode; its occurrences do not depend on the role *)
+Lemma not_name_written : forall e, is_name e = false ->
+  fam_written root e = fam_expr root e /\ occ_expr root RNone e = occ_expr root RValue e.
+Proof. intros e H; destruct e; try discriminate; split; reflexivity. Qed.
+
+Lemma ev_args_occ : forall sp callee args idx,
+  forallb (fun a : assoc => match a_mode a with
+                            | MOut => fam_written root (a_actual a)
+                            | _ => fam_expr root (a_actual a)
+                            end) args = true ->
+  resolved_args root callee idx args = true ->
+  moe (ev_args root VNow sp callee idx args)
+  = flat_map (fun a : assoc => occ_expr root (role_of_mode (a_mode a)) (a_actual a)) args.
+Proof.
+  intros sp callee args; induction args as [|a r IH]; intros idx Hf Hr; [reflexivity|].
+  simpl in Hf, Hr. apply andb_true_iff in Hf. apply andb_true_iff in Hr.
+  destruct Hf as [Hfa Hfr]. destruct Hr as [Hra Hrr]. apply eqb_prop in Hra.
+  simpl. rewrite moe_app, (IH _ Hfr Hrr). f_equal. rewrite Hra.
+  destruct (a_mode a); simpl.
+  - rewrite andb_false_r. apply (ev_expr_occ _ Hfa false).
+  - rewrite andb_true_r. destruct (is_name (a_actual a)) eqn:Nm.
+    + apply (ev_written_occ _ Hfa).
+    + destruct (not_name_written _ Nm) as [E1 E2]. rewrite E2. rewrite E1 in Hfa. apply (ev_expr_occ _ Hfa false).
+  - rewrite andb_false_r. apply (ev_expr_occ _ Hfa false).
+Qed.
+
 Definition stmt_ok (s : stmt) : Prop :=
-  fam_stmt root s = true -> no_out_stmt root s = true ->
-  Permutation (moe (ev_stmt false s)) (occ_stmt root s).
+  fam_stmt root s = true -> resolved_stmt root s = true ->
+  Permutation (moe (ev_stmt root VNow s)) (occ_stmt root s).
 
 Lemma stmts_ok : forall ss, Forall stmt_ok ss ->
-  forallb (fam_stmt root) ss = true -> forallb (no_out_stmt root) ss = true ->
-  Permutation (moe (flat_map (ev_stmt false) ss)) (flat_map (occ_stmt root) ss).
+  forallb (fam_stmt root) ss = true -> forallb (resolved_stmt root) ss = true ->
+  Permutation (moe (flat_map (ev_stmt root VNow) ss)) (flat_map (occ_stmt root) ss).
 Proof.
   intros ss H; induction H as [|s r Hs _ IH]; intros Hf Hn; [constructor|].
   simpl in Hf, Hn. apply andb_true_iff in Hf. apply andb_true_iff in Hn.
@@ -297,15 +349,7 @@ Proof.
     apply andb_true_iff in Hf. destruct Hf as [Hi Hb]. simpl in Hn.
     rewrite moe_app, (ev_iter_occ _ Hi). apply Permutation_app_head. apply (stmts_ok _ H Hb Hn).
   - (* call *)
-    simpl in Hn. rewrite moe_flat_map.
-    replace (flat_map (fun x : mode * expr => moe (ev_expr false (snd x) (span_of (snd x)))) args)
-      with (flat_map (fun a : mode * expr => occ_expr root (role_of_mode (fst a)) (snd a)) args); [reflexivity|].
-    induction args as [|[m a] r IH]; [reflexivity|].
-    simpl in Hf, Hn. apply andb_true_iff in Hf. apply andb_true_iff in Hn.
-    destruct Hf as [Hx Hr]. destruct Hn as [Hnx Hnr].
-    simpl. rewrite (IH Hr Hnr). f_equal.
-    rewrite (ev_expr_occ a Hx false). simpl.
-    destruct m; simpl; try reflexivity. symmetry. apply mentions_eqb_eq, Hnx.
+    simpl in Hn. rewrite (ev_args_occ sp p args 0%nat Hf Hn). reflexivity.
   - (* assert *)
     apply andb_true_iff in Hf. destruct Hf as [Hf Hs]. apply andb_true_iff in Hf. destruct Hf as [Hc Hr].
     rewrite (ev_occ _ Hc), (nil_b_nil _ _ Hr), (nil_b_nil _ _ Hs), !app_nil_r. reflexivity.
@@ -319,8 +363,8 @@ Proof.
 Qed.
 
 Lemma ev_stmts_perm : forall ss,
-  forallb (fam_stmt root) ss = true -> forallb (no_out_stmt root) ss = true ->
-  Permutation (moe (ev_stmts false ss)) (occ_stmts root ss).
+  forallb (fam_stmt root) ss = true -> forallb (resolved_stmt root) ss = true ->
+  Permutation (moe (ev_stmts root VNow ss)) (occ_stmts root ss).
 Proof.
   intros ss. apply stmts_ok. apply Forall_forall. intros s _. apply ev_stmt_perm.
 Qed.
@@ -751,8 +795,8 @@ Lemma wf_pos_sinc : forall p, wf_pos root p = true -> sinc (demanded (occ_stmts 
 Proof. intros p H. apply increasing_sinc. exact H. Qed.
 
 Lemma found_spec : forall p names,
-  in_family root p = true -> no_out_actuals root p = true -> wf_pos root p = true ->
-  sort_by_pos (found (fold_left (analyze_designator root (sens_map names)) (ev_stmts false (p_body p))
+  in_family root p = true -> calls_resolved root p = true -> wf_pos root p = true ->
+  sort_by_pos (found (fold_left (analyze_designator root (sens_map names)) (ev_stmts root VNow (p_body p))
                                 (mkChecker (sens_map names) [])))
   = spec_missing root p names.
 Proof.
@@ -767,9 +811,9 @@ Proof.
 Qed.
 
 Lemma sup_spec : forall p names,
-  in_family root p = true -> no_out_actuals root p = true -> listed_signals root names = true ->
+  in_family root p = true -> calls_resolved root p = true -> listed_signals root names = true ->
   map (fun x : N * span => DSuperfluous (snd x))
-      (superfluous (fold_left (analyze_designator root (sens_map names)) (ev_stmts false (p_body p))
+      (superfluous (fold_left (analyze_designator root (sens_map names)) (ev_stmts root VNow (p_body p))
                               (mkChecker (sens_map names) [])))
   = map DSuperfluous (spec_superfluous root p names).
 Proof.
@@ -777,7 +821,7 @@ Proof.
   f_equal. apply filter_ext_in. intros x Hx. f_equal.
   pose proof (sens_map_signals root names Hl x Hx) as Hs.
   pose proof (ev_stmts_perm root (p_body p) Hf Hn) as HP.
-  destruct (memN (fst x) (map ev_id (ev_stmts false (p_body p)))) eqn:A;
+  destruct (memN (fst x) (map ev_id (ev_stmts root VNow (p_body p)))) eqn:A;
     destruct (memN (fst x) (mentioned (occ_stmts root (p_body p)))) eqn:B; try reflexivity; exfalso.
   - apply memN_In in A. apply memN_false in B. apply B.
     apply (ids_mentioned root _ _ Hs) in A. unfold mentioned in *.
@@ -789,7 +833,7 @@ Qed.
 Lemma lint_unfold : forall p names,
   p_sens p = Some (SensNames names) -> get_likely_process_category root p = Some Combinational ->
   lint_model root p =
-    let st := fold_left (analyze_designator root (sens_map names)) (ev_stmts false (p_body p))
+    let st := fold_left (analyze_designator root (sens_map names)) (ev_stmts root VNow (p_body p))
                         (mkChecker (sens_map names) []) in
     Some ((match sort_by_pos (found st) with [] => [] | _ => [DMissing (p_kw p) (sort_by_pos (found st))] end)
           ++ map (fun x : N * span => DSuperfluous (snd x)) (superfluous st)).
@@ -799,7 +843,7 @@ Lemma lint_exact :
   forall p names,
     p_sens p = Some (SensNames names) ->
     get_likely_process_category root p = Some Combinational ->
-    in_family root p = true -> no_out_actuals root p = true ->
+    in_family root p = true -> calls_resolved root p = true ->
     wf_pos root p = true -> listed_signals root names = true ->
     lint_model root p = Some (spec_diags root p names).
 Proof.
@@ -819,7 +863,7 @@ Lemma missing_exact :
   forall p names,
     p_sens p = Some (SensNames names) ->
     get_likely_process_category root p = Some Combinational ->
-    in_family root p = true -> no_out_actuals root p = true -> wf_pos root p = true ->
+    in_family root p = true -> calls_resolved root p = true -> wf_pos root p = true ->
     exists ds, lint_model root p = Some ds /\
       missing_of ds = match spec_missing root p names with
                       | [] => []
@@ -847,7 +891,7 @@ Lemma superfluous_exact :
   forall p names,
     p_sens p = Some (SensNames names) ->
     get_likely_process_category root p = Some Combinational ->
-    in_family root p = true -> no_out_actuals root p = true ->
+    in_family root p = true -> calls_resolved root p = true ->
     listed_signals root names = true ->
     exists ds, lint_model root p = Some ds /\ superfluous_of ds = spec_superfluous root p names.
 Proof.
@@ -1022,26 +1066,26 @@ Qed.
 (* witnesses                                                                                    *)
 (* ------------------------------------------------------------------------------------------ *)
 Lemma hyps_f14 : hyps root6 f14 [sg 2 5].
-Proof. unfold hyps. split; [|split; [|split; [|split]]]; vm_compute; reflexivity. Qed.
+Proof. unfold hyps. split; [|split; [|split; [|split; [|split]]]]; vm_compute; reflexivity. Qed.
 Lemma hyps_f15 : hyps root6 f15 [sg 2 5].
-Proof. unfold hyps. split; [|split; [|split; [|split]]]; vm_compute; reflexivity. Qed.
+Proof. unfold hyps. split; [|split; [|split; [|split; [|split]]]]; vm_compute; reflexivity. Qed.
 Lemma hyps_f20 : hyps root6 f20 [sg 2 1].
-Proof. unfold hyps. split; [|split; [|split; [|split]]]; vm_compute; reflexivity. Qed.
+Proof. unfold hyps. split; [|split; [|split; [|split; [|split]]]]; vm_compute; reflexivity. Qed.
 
 Lemma f14_now :
-  hyps root6 f14 [sg 2 5] /\ no_out_actuals root6 f14 = true /\
+  hyps root6 f14 [sg 2 5] /\ calls_resolved root6 f14 = true /\
   lint_model root6 f14 =
     Some [DMissing (tk 0) [(1, tk 6); (2, tk 12); (3, tk 16); (4, tk 25)]; DSuperfluous (tk 2)].
 Proof. split; [exact hyps_f14 | split; vm_compute; reflexivity]. Qed.
 Lemma f15_now :
-  hyps root6 f15 [sg 2 5] /\ no_out_actuals root6 f15 = true /\
+  hyps root6 f15 [sg 2 5] /\ calls_resolved root6 f15 = true /\
   lint_model root6 f15 =
     Some [DMissing (tk 0) [(4, tk 7); (2, tk 9); (3, tk 11); (1, tk 13)]; DSuperfluous (tk 2)].
 Proof. split; [exact hyps_f15 | split; vm_compute; reflexivity]. Qed.
 
 Lemma order_old_refuted :
   exists root p names,
-    hyps root p names /\ no_out_actuals root p = true /\
+    hyps root p names /\ calls_resolved root p = true /\
     lint_model_old root p <> Some (spec_diags root p names) /\
     lint_model_old root p =
       Some [DMissing (tk 0) [(1, tk 6); (3, tk 16); (2, tk 19); (4, tk 25)]; DSuperfluous (tk 2)].
@@ -1052,7 +1096,7 @@ Proof.
 Qed.
 Lemma call_span_old_refuted :
   exists root p names,
-    hyps root p names /\ no_out_actuals root p = true /\
+    hyps root p names /\ calls_resolved root p = true /\
     lint_model_old root p <> Some (spec_diags root p names) /\
     lint_model_old root p =
       Some [DMissing (tk 0) [(4, (5, 14)); (2, (5, 14)); (3, (5, 14)); (1, (5, 14))]; DSuperfluous (tk 2)].
@@ -1061,11 +1105,23 @@ Proof.
   - intros H. vm_compute in H. discriminate.
   - vm_compute. reflexivity.
 Qed.
-Lemma out_actual_refuted :
+Lemma hyps_f20n : hyps root6 f20n [sg 2 1].
+Proof. unfold hyps. split; [|split; [|split; [|split; [|split]]]]; vm_compute; reflexivity. Qed.
+
+(* F20 on the repaired code: the out-mode actual is written, its index expression is read *)
+Lemma f20_now :
+  hyps root6 f20 [sg 2 1] /\ lint_model root6 f20 = Some [] /\
+  hyps root6 f20n [sg 2 1] /\ lint_model root6 f20n = Some [DMissing (tk 0) [(3, tk 11)]].
+Proof. split; [exact hyps_f20|]. split; [vm_compute; reflexivity|]. split; [exact hyps_f20n | vm_compute; reflexivity]. Qed.
+
+Lemma out_actual_old_refuted :
   exists root p names,
-    hyps root p names /\ no_out_actuals root p = false /\
+    hyps root p names /\
     spec_diags root p names = [] /\
-    lint_model root p = Some [DMissing (tk 0) [(5, tk 9)]].
+    lint_model_f20 root p <> Some (spec_diags root p names) /\
+    lint_model_f20 root p = Some [DMissing (tk 0) [(5, tk 9)]].
 Proof.
-  exists root6, f20, [sg 2 1]. split; [exact hyps_f20|]. split; [|split]; vm_compute; reflexivity.
+  exists root6, f20, [sg 2 1]. split; [exact hyps_f20|]. split; [vm_compute; reflexivity|]. split.
+  - intros H. vm_compute in H. discriminate.
+  - vm_compute. reflexivity.
 Qed.
